@@ -435,7 +435,10 @@ def build(op, seed, variant=0):
             return C(op, teneva.truncate, [Yb], dict(e=1e-10, r=2, is_eigh=False))
         if v % 8 == 3:
             # tolerance and cap handed over as 0-d / one-element arrays (a value taken from an option array): arguments like any other
-            return C(op, teneva.truncate, [Y], dict(e=[np.array(1e-8), np.array([1e-3])[0:1].reshape(())][(v // 8) % 2], r=[np.array(3), 1e12][(v // 16) % 2], use_stab=bool((v // 4) % 2)))
+            # (bond spectra decaying by factors of two, so that any change of the effective tolerance by a factor of two changes a rank)
+            Yd = mk_tt(rng, [4, 5, 4, 4], r=[1, 4, 6, 4, 1])
+            Yd = [G * (2.0 ** -np.arange(G.shape[2]))[None, None, :] for G in Yd]
+            return C(op, teneva.truncate, [Yd], dict(e=[np.array(0.02), np.array([0.1])[0:1].reshape(())][(v // 8) % 2], r=[np.array(5), 1e12][(v // 16) % 2], use_stab=bool((v // 4) % 2)))
         return C(op, teneva.truncate, [Y], dict(e=[1e-10, 0.3][v % 2], r=[1e12, 2][(v // 2) % 2], orth=(v % 5 != 4), use_stab=bool((v // 4) % 2), is_eigh=bool((v // 8) % 2)))
     if op in ("orthogonalize_left", "orthogonalize_right"):
         i = int(rng.integers(0, d - 1)) + (op == "orthogonalize_right")
